@@ -179,7 +179,7 @@ func main() {
 		ID:    "C19",
 		Level: "exploration",
 		Race:  true,
-		Rule: "sequential: a program = helper/layout/view template files in a memfs (definitions over a 6-name pool plus root text, {{block}}s, overlapping across layers and views, nested directories, ignored non-template files, occasionally a file that does not parse); request sequences over Base/Layout/View are issued to a cached and an uncached provider of both packages; every answer's defined names and the rendering of every name (views directly, base/layout on a clone) are compared with (1) a reference built with html/template / text/template directly and (2) an abstract layering model (names and marker sequences), and cached with uncached. " +
+		Rule: "sequential: a program = helper/layout/view template files in a memfs (definitions over a 6-name pool plus root text, {{block}}s, overlapping across layers and views, nested directories, ignored non-template files, occasionally a file that does not parse; layout / view names with blanks, slashes, colons, non-ASCII letters and – one program in seven – dots inside a segment next to their dot-less twins); request sequences over Base/Layout/View are issued to a cached and an uncached provider of both packages; every answer's defined names and the rendering of every name (views directly, base/layout on a clone) are compared with (1) a reference built with html/template / text/template directly and (2) an abstract layering model (names and marker sequences), and cached with uncached. " +
 			"exhdefs: every placement of two names (a calls b) over {helpers, 2 layouts, 2 views}; exhord: every request sequence of length L over 7 requests on 3 fixed programs; rand: seeded programs and sequences. " +
 			"conc: fresh provider, 2..32 goroutines released together issue first requests for overlapping and distinct keys with schedule noise at the filespace boundary under GOMAXPROCS 2/4/16; every caller's answer is checked like above; the race detector decides for the provider files. distinct = distinct (program, requests); non-trivial = a requested view has a name defined in more than one of its layers (sequential) / at least two callers were inside the provider before the first returned (concurrent)",
 		Assumptions: []string{
